@@ -39,6 +39,9 @@ def factory(prop):
     if prop == "C18":
         from engines.bytes_sock import SockCheck
         return SockCheck()
+    if prop == "C14":
+        from engines.threads_to import ToThreadCheck
+        return ToThreadCheck()
     raise SystemExit(f"unknown property {prop}")
 
 
